@@ -61,3 +61,25 @@ Definition crc_slicing (misalign : N) (l : bytes) : N :=
   let '(c2, l2) := sl_main (Nat.div (length l1) 8) c1 l1 in
   let c3 := fold_left sl_byte l2 c2 in
   N.lxor c3 CRC_MASK.
+
+(* ---- libmy/crc32c-sse42.c ---------------------------------------------------
+   crc32{b,w,l,q} fold the operand's bytes, least significant first, into the
+   register (Intel SDM: CRC32 - Accumulate CRC32 Value): modelled as crc_byte over
+   the little-endian bytes read from memory. *)
+Fixpoint sse_main (fuel : nat) (c : N) (l : bytes) : N * bytes :=
+  match fuel with
+  | O => (c, l)
+  | S f => (fun r => sse_main f (crc_update c (firstn (N.to_nat CRC_SSE42_MAIN_WIDTH) l)) r)
+             (skipn (N.to_nat CRC_SSE42_MAIN_WIDTH) l)
+  end.
+Definition sse_tail_ops (n : N) : list (N * N) :=
+  match find (fun e => fst e =? n) CRC_SSE42_TAIL with
+  | Some e => snd e
+  | None => []
+  end.
+Definition crc_sse42 (l : bytes) : N :=
+  let nmain := Nat.div (length l) (N.to_nat CRC_SSE42_MAIN_WIDTH) in
+  let '(c1, tail) := sse_main nmain CRC_SSE42_INIT l in
+  let ops := sse_tail_ops (N.land (len l) CRC_SSE42_TAIL_MASK) in
+  let c2 := fold_left (fun c op => crc_update c (firstn (N.to_nat (snd op)) (skipn (N.to_nat (fst op)) tail))) ops c1 in
+  N.lxor c2 CRC_MASK.
